@@ -18,9 +18,9 @@ from ..core.index import AnalysisError
 HY = "distance3d.hydroelastic_contact."
 
 
-def r_invalidate(idx, rep, rule="R-INVALIDATE"):
+def r_invalidate(idx, rep, rule="R-INVALIDATE", relevant_to=None, floor=4):
     rep.rule(rule, "a method that reassigns a source attribute (vertices_, tetrahedra_, potentials_ ...) resets every lazily "
-                   "computed cache that transitively depends on it", floor=4)
+                   "computed cache that transitively depends on it", floor=floor)
     ci = idx.cls(HY + "_rigid_body::RigidBody")
     # caches: properties of the form  if self._x is None: self._x = f(...); return self._x
     caches = {}   # cache attr -> set of attrs / properties read to compute it
@@ -41,6 +41,26 @@ def r_invalidate(idx, rep, rule="R-INVALIDATE"):
                 props[name] = cache
     if len(caches) < 3:
         raise AnalysisError("RigidBody: fewer than 3 lazily cached properties found (%s)" % sorted(caches))
+    # caches filled from OUTSIDE the class:  `if body._x is None: body._x = f(body.<props>)`  in any hydroelastic function, for an
+    # attribute the constructor initialises to None (same idiom, one hop away; its invalidation duty is the same)
+    init = ci.methods.get("__init__")
+    none_init = set()
+    if init is not None:
+        for st in iter_stmts(init.node.body):
+            if isinstance(st, ast.Assign) and const(st.value) is None and u(st.value) == "None":
+                for t in st.targets:
+                    if isinstance(t, ast.Attribute) and u(t.value) == "self":
+                        none_init.add(t.attr)
+    for fn in idx.all_functions():
+        if fn.module.is_test or "hydroelastic" not in fn.module.name or fn.cls is ci:
+            continue
+        for st in ast.walk(fn.node):
+            if isinstance(st, ast.Assign) and len(st.targets) == 1 and isinstance(st.targets[0], ast.Attribute) and isinstance(st.targets[0].value, ast.Name) \
+                    and st.targets[0].value.id != "self" and st.targets[0].attr in none_init and st.targets[0].attr not in caches and u(st.value) != "None":
+                obj = st.targets[0].value.id
+                deps = {n.attr for n in ast.walk(st.value) if isinstance(n, ast.Attribute) and isinstance(n.value, ast.Name) and n.value.id == obj}
+                caches[st.targets[0].attr] = deps
+                rep.note("R-INVALIDATE: %s is a cache of RigidBody filled in %s from %s" % (st.targets[0].attr, fn.key, sorted(deps)))
     # transitive closure over properties
     def sources(cache, seen=()):
         out = set()
@@ -52,6 +72,17 @@ def r_invalidate(idx, rep, rule="R-INVALIDATE"):
                 out.add(d)
         return out
     dep_on = {c: sources(c) for c in caches}
+    wanted = None
+    if relevant_to is not None:
+        # only the caches the named method reads (transitively through the cached properties)
+        meth = ci.methods.get(relevant_to)
+        if meth is None:
+            raise AnalysisError("RigidBody.%s not found" % relevant_to)
+        wanted = set()
+        for n in ast.walk(meth.node):
+            if isinstance(n, ast.Attribute) and u(n.value) == "self" and n.attr in props:
+                wanted.add(props[n.attr])
+                wanted |= {c for c in dep_on[props[n.attr]] if c in caches}
     for name, m in sorted(ci.methods.items()):
         if name == "__init__" or "property" in m.decorators:
             continue
@@ -65,6 +96,8 @@ def r_invalidate(idx, rep, rule="R-INVALIDATE"):
             if a in caches:
                 continue
             for c in sorted(caches):
+                if wanted is not None and c not in wanted:
+                    continue
                 if a in dep_on[c]:
                     reset = c in assigned and (const(assigned[c].value) is None and u(assigned[c].value) == "None")
                     key = ci.key + ".%s|%s assigned -> cache %s" % (name, a, c)
